@@ -1,7 +1,7 @@
 (** C16 — Access barrier safety: destruction waits for earlier accessors, in order, once.
     Statements only.  Machine: Conc/Barrier.v (one step per atomic segment of access_barrier.go). *)
 From Coq Require Import List Arith ZArith Lia Bool.
-From NV Require Import Base.Sched Conc.Barrier Conc.BarrierProofs.
+From NV Require Import Base.Sched Conc.Barrier Conc.BarrierProofs Conc.BarrierExclStmts Conc.BarrierExclProofs.
 Import ListNotations.
 Open Scope Z_scope.
 
@@ -35,3 +35,26 @@ Example C16_nonvacuous :
   Z.of_nat (length (concat progs)) < offset /\
   quiescent shared local pers op result y = true /\ destructed (sh y) = [(1%nat, 7%nat); (2%nat, 8%nat)].
 Proof. vm_compute. repeat split; reflexivity. Qed.
+
+(** Exclusiveness of destruction, ALL programs and ALL schedules: at most one goroutine is inside
+    doCleanup (between winning the try-lock and resetting it), the try-lock flag is set exactly then,
+    and the only step that extends the list of destructed sessions is a step of that goroutine — so
+    the destructor of a flush never starts while the destructor of an earlier flush has not returned,
+    however long a callback takes. *)
+Theorem C16_one_cleaner : forall progs sched, Z.of_nat (length (concat progs)) < offset ->
+  let y := runS true (init progs) sched in
+  (forall i j ti tj, nth_error (ths y) i = Some ti -> nth_error (ths y) j = Some tj ->
+     in_cleanup (cur ti) = true -> in_cleanup (cur tj) = true -> i = j) /\
+  (running (sh y) = true <-> exists i t, nth_error (ths y) i = Some t /\ in_cleanup (cur t) = true).
+Proof. exact one_cleaner. Qed.
+Print Assumptions C16_one_cleaner.
+
+Theorem C16_destructor_in_cleanup : forall progs sched i, Z.of_nat (length (concat progs)) < offset ->
+  let y := runS true (init progs) sched in
+  let y' := stepS true y i in
+  destructed (sh y') <> destructed (sh y) ->
+  (exists t c k, nth_error (ths y) i = Some t /\ cur t = Some (LClean c k)) /\
+  running (sh y) = true /\
+  exists e, destructed (sh y') = destructed (sh y) ++ [e].
+Proof. exact destructor_in_cleanup. Qed.
+Print Assumptions C16_destructor_in_cleanup.
